@@ -28,7 +28,7 @@ given to mc/irinterp must follow P.
 import itertools
 import sys
 
-from mc import irgen, irinterp, refsem
+from mc import adaptive, irgen, irinterp, refsem
 from mc.runner import violation
 
 PROP = "C39"
@@ -48,25 +48,27 @@ LEVEL_TEXT = ("Bounded-exhaustive enumeration of small acyclic IR graphs through
 LEVEL_NOTE = ("Trusted: mc/irinterp.py + mc/refsem.py, mc/irgen.py, the ~40 lines here executing assignment blocks along a forced "
               "block sequence. depgraph.py's names `Translator` and `z3` are wrapped during emul() to record the constraint tree "
               "(observation only; the z3 terms and the solver are the real ones). Memory is tracked syntactically by the analysis "
-              "(its documented design), so the alphabet keeps the stack pointer constant and accesses memory only through the two "
-              "disjoint cells @32[sp+4], @32[sp+8]; follow_mem / follow_call are left at their defaults (True); lifted x86 graphs "
+              "(its documented design), so the alphabet keeps the stack pointer constant, writes memory only through the two "
+              "disjoint cells @32[sp+4], @32[sp+8] and reads it through them or through @32[a] (pointer dependency, never an alias); follow_mem / follow_call are left at their defaults (True); lifted x86 graphs "
               "are not part of this check (the stack pointer moves in them).")
 TECHNIQUE = "bounded-exhaustive enumeration of acyclic IR graphs; reference-interpreter differential of slice vs full blocks and of path constraints vs concrete path"
-ASSUMPTIONS = ["the stack pointer is not written and memory is only accessed through the disjoint cells @32[sp+4] and @32[sp+8] "
-               "(DependencyGraph tracks memory expressions syntactically)",
+ASSUMPTIONS = ["the stack pointer is not written; memory is only written through the disjoint cells @32[sp+4] and @32[sp+8] and only read "
+               "through them or through @32[a], which never aliases them in the state lattice (DependencyGraph tracks memory expressions "
+               "syntactically)",
                "every block of the graph has an offset in the LocationDB (irgen gives block i the offset 0x10*i)"]
 
 # ordered simplest first
 ALPHA_WIDE = ["a=b", "b=a", "a=a+1", "a=0", "b=1", "c=a+b", "a=c", "swap", "a=b,c=a", "r=a", "r=b", "zf=a==b",
-              "a=@[sp+4]", "b=@[sp+4]", "@[sp+4]=a", "@[sp+4]=b", "@[sp+8]=1", "b=@[sp+8]", "r=call(a)"]
+              "a=@[sp+4]", "b=@[sp+4]", "@[sp+4]=a", "@[sp+4]=b", "@[sp+8]=1", "b=@[sp+8]", "r=call(a)", "b=@[a]"]
 ALPHA_14 = ["a=b", "b=a", "a=a+1", "b=1", "c=a+b", "a=c", "swap", "a=b,c=a", "r=a", "a=@[sp+4]", "b=@[sp+4]", "@[sp+4]=a",
-            "@[sp+4]=b", "r=call(a)"]
+            "@[sp+4]=b", "b=@[a]"]
 ALPHA_10 = ["a=b", "a=a+1", "b=1", "swap", "r=a", "zf=a==b", "a=@[sp+4]", "@[sp+4]=a", "@[sp+4]=b", "b=@[sp+8]"]
 ALPHA_7 = ["a=b", "a=a+1", "b=1", "swap", "r=a", "a=@[sp+4]", "@[sp+4]=b"]
 ALPHA_6 = ["a=b", "a=a+1", "swap", "r=a", "a=@[sp+4]", "@[sp+4]=b"]
 ALPHA_5 = ["a=b", "swap", "r=a", "a=@[sp+4]", "@[sp+4]=b"]
 ALPHA_4 = ["a=b", "swap", "a=@[sp+4]", "@[sp+4]=b"]
 ALPHA_3 = ["a=b", "swap", "@[sp+4]=a"]
+ALPHA_2 = ["a=b", "@[sp+4]=a"]
 IMPL_6 = ["a=b", "a=0", "a=a+1", "zf=a==b", "@[sp+4]=a", "a=@[sp+4]"]
 IMPL_4 = ["a=b", "a=0", "zf=a==b", "@[sp+4]=a"]
 IMPL_3 = ["a=0", "zf=a==b", "@[sp+4]=a"]
@@ -84,19 +86,20 @@ PLAN_Q = [
     ("explicit", 2, 2, ALPHA_4, CONDS_ONE),
     ("explicit", 3, 1, ALPHA_5, CONDS_ONE),
     ("implicit", 1, 2, IMPL_4, CONDS_ONE),
-    ("implicit", 3, 1, IMPL_3, CONDS_3),
+    ("implicit", 3, 1, IMPL_3, CONDS_4),
 ]
 PLAN_T = [
-    ("explicit", 1, 3, ALPHA_WIDE, CONDS_ONE),
+    ("explicit", 1, 3, ALPHA_14, CONDS_ONE),
+    ("explicit", 1, 2, ALPHA_WIDE, CONDS_ONE),
     ("explicit", 2, 1, ALPHA_WIDE, CONDS_ONE),
-    ("explicit", 2, 2, ALPHA_10, CONDS_ONE),
-    ("explicit", 3, 1, ALPHA_14, CONDS_ONE),
-    ("explicit", 3, 2, ALPHA_3, CONDS_ONE),
-    ("explicit", 4, 1, ALPHA_4, CONDS_ONE),
+    ("explicit", 2, 2, ALPHA_7, CONDS_ONE),
+    ("explicit", 3, 1, ALPHA_10, CONDS_ONE),
+    ("explicit", 3, 2, ALPHA_2, CONDS_ONE),
+    ("explicit", 4, 1, ALPHA_3, CONDS_ONE),
     ("implicit", 1, 2, IMPL_6, CONDS_ONE),
     ("implicit", 2, 2, IMPL_4, CONDS_ONE),
-    ("implicit", 3, 1, IMPL_6, CONDS_4),
     ("implicit", 3, 1, IMPL_4, CONDS_ALL),
+    ("implicit", 3, 1, IMPL_6, ["a", "@[sp+4]"]),
     ("implicit", 3, 2, IMPL_2, ["zf"]),
     ("implicit", 4, 1, IMPL_2, ["zf"]),
     ("implicit", 4, 1, IMPL_2M, ["@[sp+4]"]),
@@ -324,6 +327,34 @@ def tree_text(rec, tid):
     return "?" if e is None else "%s == %s" % (e.dst, e.src)
 
 
+# ------------------------------------------------------------------ deterministic order of the pending states
+
+class _OrderedPopSet(set):
+    """A set whose pop() is deterministic when it holds DependencyState objects (they are hashed by identity):
+    the state with the smallest / largest history (sequence of location keys) comes out first. Any order is a legal
+    behaviour of the original set; everything else is the builtin set."""
+    policy = "min"
+
+    def pop(self):
+        if self and all(hasattr(x, "history") for x in self):
+            def key(st):
+                return [lk.key for lk in st.history]
+            x = min(self, key=key) if _OrderedPopSet.policy == "min" else max(self, key=key)
+            self.remove(x)
+            return x
+        return set.pop(self)
+
+
+def get_solutions(dg, loc_key, element, line_nb, head, policy):
+    import miasm.analysis.depgraph as dgm
+    _OrderedPopSet.policy = policy
+    dgm.set = _OrderedPopSet          # module-level name shadowing the builtin inside depgraph.py only
+    try:
+        return list(dg.get(loc_key, {element}, line_nb, {head}))
+    finally:
+        del dgm.set
+
+
 # ------------------------------------------------------------------ judging one graph
 
 def features(body_idx, alphabet, element):
@@ -338,6 +369,20 @@ def features(body_idx, alphabet, element):
     if any("call" in x for x in used):
         tags.append("call")
     return ("mem-target" if element.startswith("@") else "reg-target") + ":" + ("+".join(tags) or "regs")
+
+
+def slice_features(lines, element):
+    """Skeleton of a solution: kind of target + what its slice contains."""
+    tags = []
+    if any(x.is_mem() for l in lines for src in l.values() for x in src.get_r(mem_read=True)):
+        tags.append("memread")
+    if any(d.is_mem() for l in lines for d in l):
+        tags.append("memwrite")
+    if any(len(l) > 1 for l in lines):
+        tags.append("parallel")
+    if any(x.is_function_call() for l in lines for src in l.values() for x in [src]):
+        tags.append("call")
+    return ("mem-target" if element.startswith("@") else "reg-target") + ":slice=" + ("+".join(tags) or ("regs" if lines else "empty"))
 
 
 def element_expr(A, name):
@@ -356,7 +401,7 @@ def check_graph(mode, n, shape_idx, body_idx, cond_idx, alphabet, conds, only=No
     implicit = mode == "implicit"
     info = {"targets": 0, "solutions": 0, "nontrivial": 0, "state_evals": 0, "empty_slices": 0, "emul_raised": 0,
             "unsat_solutions": 0, "sat_solutions": 0, "models_replayed": 0, "solutions_all_follow": 0, "solutions_none_follow": 0,
-            "solutions_some_follow": 0, "solutions_history_not_from_head": 0, "max_solutions_per_target": 0,
+            "solutions_some_follow": 0, "solutions_history_not_from_head": 0, "max_solutions_per_target": 0, "graphs_with_join": 0,
             "states_following": 0, "states_not_following": 0, "targets_without_solution": 0,
             "constraint_sets_judged": 0, "constraint_sets_repeated": 0}
     used_ids, uses_mem = graph_reads(g.ircfg)
@@ -398,161 +443,175 @@ def check_graph(mode, n, shape_idx, body_idx, cond_idx, alphabet, conds, only=No
             follow_cache[path] = res
         return follow_cache[path]
 
+    def judge(bi, line_nb, ename, policy):
+        element = element_expr(A, ename)
+        info["targets"] += 1
+        case = {"mode": mode, "n": n, "shape": shape_idx, "bodies": body_idx, "conds": cond_idx, "alphabet": alphabet,
+                "condnames": conds, "target": [bi, line_nb, ename], "order": policy}
+        kind = features(body_idx, alphabet, ename)
+        tdesc = "%s; target %s before line %d of B%d (%s mode%s)" % (desc, ename, line_nb, bi, mode, ", pending states taken %s-history first" % policy if len(policies) > 1 else "")
+        try:
+            sols = get_solutions(dg, g.locs[bi], element, line_nb, g.head, policy)
+        except Exception as e:
+            add("%s:get:raise:%s:%s" % (mode, type(e).__name__, kind), "%s: DependencyGraph.get raised %r" % (tdesc, e), case)
+            return
+        if not sols:
+            info["targets_without_solution"] += 1
+            add("%s:get:no-solution:%s" % (mode, kind), "%s: no solution returned although the target is reachable from the head" % tdesc, case)
+            return
+        info["max_solutions_per_target"] = max(info["max_solutions_per_target"], len(sols))
+        hist_seen = set()
+        for sol in sols:
+            info["solutions"] += 1
+            path = tuple(idx_of[l] for l in reversed(sol.history))
+            ptxt = "->".join("B%d" % i for i in path)
+            # the history must be a path of the graph ending in the target block
+            if path[-1] != bi or any(path[k + 1] not in shape[path[k]] for k in range(len(path) - 1)):
+                add("%s:history-not-a-path:%s" % (mode, kind), "%s: history %s is not a path of the graph ending in the target block" % (tdesc, ptxt), case)
+                continue
+            if path[0] != 0:
+                info["solutions_history_not_from_head"] += 1
+            nodes = sol.relevant_nodes
+            slice_lines = node_lines(g, path, line_nb, nodes)
+            if not slice_lines:
+                info["empty_slices"] += 1
+            kind = slice_features(slice_lines, ename)      # from here on the signature speaks about the solution's slice
+            # ---- (A) emul
+            rec = roots = tr = None
+            try:
+                if implicit:
+                    vals, rec, roots, tr = emul_recorded(sol, g.lifter, dict(A.inits))
+                else:
+                    vals = sol.emul(g.lifter, ctx=dict(A.inits))
+                got_expr = vals[element]
+            except HarnessError:
+                raise
+            except Exception as e:
+                info["emul_raised"] += 1
+                add("%s:emul:raise:%s:%s" % (mode, type(e).__name__, kind), "%s: solution with history %s: emul raised %r" % (tdesc, ptxt, e), case)
+                continue
+            fulls = full_states(path, line_nb)
+            bad = False
+            for k, (regs, mem, stxt) in enumerate(sts):
+                info["state_evals"] += 1
+                fr, fm = fulls[k]
+                want = read_element(it, element, fr, fm)
+                try:
+                    got = read_element(it, got_expr, regs, mem)
+                except (KeyError, refsem.Unsupported) as e:
+                    add("%s:emul-value-not-evaluable:%s" % (mode, kind), "%s: history %s: emul returned %s = %s which cannot be evaluated on the inputs (%r)" % (
+                        tdesc, ptxt, ename, got_expr, e), case)
+                    bad = True
+                    break
+                if got != want:
+                    add("%s:emul-value-differs:%s" % (mode, kind),
+                        "%s: history %s: the full blocks give %s = %#x, emul of the slice gives %s = %#x from state %s; slice: %s" % (
+                            tdesc, ptxt, ename, want, got_expr, got, stxt, _lines_text(slice_lines)), case)
+                    bad = True
+                    break
+                # ---- (B) the relevant assignments only, by the reference semantics
+                r2, m2 = dict(regs), dict(mem)
+                exec_lines(it, slice_lines, r2, m2)
+                got2 = read_element(it, element, r2, m2)
+                if got2 != want:
+                    add("%s:relevant-nodes-value-differs:%s" % (mode, kind),
+                        "%s: history %s: the full blocks give %s = %#x, executing only the relevant assignments gives %#x from state %s; slice: %s" % (
+                            tdesc, ptxt, ename, want, got2, stxt, _lines_text(slice_lines)), case)
+                    bad = True
+                    break
+            if not implicit:
+                if slice_lines and path not in hist_seen:
+                    info["nontrivial"] += 1
+                hist_seen.add(path)
+                continue
+            # ---- path constraints
+            fol = follows(path)
+            nf = sum(1 for x in fol if x)
+            info["states_following"] += nf
+            info["states_not_following"] += len(fol) - nf
+            if nf == len(fol):
+                info["solutions_all_follow"] += 1
+            elif nf == 0:
+                info["solutions_none_follow"] += 1
+            else:
+                info["solutions_some_follow"] += 1
+                if path not in hist_seen:
+                    info["nontrivial"] += 1
+            hist_seen.add(path)
+            ctxt = " AND ".join(tree_text(rec, t) for t in roots) or "(none)"
+            # identical (history, constraint tree) pairs are judged once per graph
+            ckey = (path, ctxt)
+            if ckey in cons_seen:
+                info["constraint_sets_repeated"] += 1
+                continue
+            cons_seen.add(ckey)
+            info["constraint_sets_judged"] += 1
+            for k, (regs, mem, stxt) in enumerate(sts):
+                def memf(ps, a, mem=mem):
+                    b = mem.get(a)
+                    return it.default_mem(a) if b is None else b
+                try:
+                    holds = all(eval_tree(it, rec, t, regs, memf) for t in roots)
+                except (KeyError, refsem.Unsupported) as e:
+                    add("implicit:constraint-not-evaluable:%s" % kind, "%s: history %s: constraints %s cannot be evaluated on the inputs (%r)" % (tdesc, ptxt, ctxt, e), case)
+                    break
+                if holds and not fol[k]:
+                    add("implicit:constraints-hold-but-execution-leaves-history:%s" % kind,
+                        "%s: history %s: state %s satisfies the path constraints %s but concrete execution from B%d does not follow the history" % (
+                            tdesc, ptxt, stxt, ctxt, path[0]), case)
+                    break
+                if fol[k] and not holds:
+                    add("implicit:execution-follows-history-but-constraints-fail:%s" % kind,
+                        "%s: history %s: concrete execution from state %s follows the history but the path constraints %s do not hold" % (
+                            tdesc, ptxt, stxt, ctxt), case)
+                    break
+            # ---- the solver's verdict and model, replayed concretely
+            try:
+                model = sol.constraints
+            except ValueError:
+                model = None
+            except Exception as e:
+                add("implicit:solver:raise:%s:%s" % (type(e).__name__, kind), "%s: history %s: is_satisfiable/constraints raised %r" % (tdesc, ptxt, e), case)
+                continue
+            if model is None:
+                info["unsat_solutions"] += 1
+                if nf:
+                    k = fol.index(True)
+                    add("implicit:unsat-but-a-state-follows-history:%s" % kind,
+                        "%s: history %s: is_satisfiable is False (constraints %s) but concrete execution from state %s follows the history" % (
+                            tdesc, ptxt, ctxt, sts[k][2]), case)
+                continue
+            info["sat_solutions"] += 1
+            try:
+                regs, mem, mtxt = model_state(A, model, tr)
+            except Exception as e:
+                add("implicit:model:raise:%s:%s" % (type(e).__name__, kind), "%s: history %s: reading the model raised %r" % (tdesc, ptxt, e), case)
+                continue
+            info["models_replayed"] += 1
+            want = [g.locs[i] for i in path]
+            r = it.run(g.ircfg, want[0], regs, mem, fuel=n + 2, irdst=A.IRDst)
+            if r.path[:len(want)] != want:
+                add("implicit:model-does-not-follow-history:%s" % kind,
+                    "%s: history %s: the solver's model %s (constraints %s) drives concrete execution through %s" % (
+                        tdesc, ptxt, mtxt, ctxt, "->".join("B%d" % idx_of[l] for l in r.path)), case)
+
+    # DependencyGraph.get keeps its pending states in a set of objects hashed by identity: which of several equivalent
+    # states is expanded first (hence which history stands for a solution) is unspecified. Both extreme orders are run
+    # on graphs with a join, so that the verdict does not depend on memory addresses.
+    preds = {}
+    for i, succ in enumerate(shape):
+        for j in succ:
+            preds[j] = preds.get(j, 0) + 1
+    policies = ["min", "max"] if any(v > 1 for v in preds.values()) else ["min"]
+    info["graphs_with_join"] = 1 if len(policies) > 1 else 0
     for bi in range(n):
         blk = g.ircfg.blocks[g.locs[bi]]
         for line_nb in range(len(blk)):
             for ename in ELEMENTS:
-                if only is not None and (bi, line_nb, ename) != tuple(only):
-                    continue
-                element = element_expr(A, ename)
-                info["targets"] += 1
-                case = {"mode": mode, "n": n, "shape": shape_idx, "bodies": body_idx, "conds": cond_idx, "alphabet": alphabet,
-                        "condnames": conds, "target": [bi, line_nb, ename]}
-                kind = features(body_idx, alphabet, ename)
-                tdesc = "%s; target %s before line %d of B%d (%s mode)" % (desc, ename, line_nb, bi, mode)
-                try:
-                    sols = list(dg.get(g.locs[bi], {element}, line_nb, {g.head}))
-                except Exception as e:
-                    add("%s:get:raise:%s:%s" % (mode, type(e).__name__, kind), "%s: DependencyGraph.get raised %r" % (tdesc, e), case)
-                    continue
-                if not sols:
-                    info["targets_without_solution"] += 1
-                    add("%s:get:no-solution:%s" % (mode, kind), "%s: no solution returned although the target is reachable from the head" % tdesc, case)
-                    continue
-                info["max_solutions_per_target"] = max(info["max_solutions_per_target"], len(sols))
-                hist_seen = set()
-                for sol in sols:
-                    info["solutions"] += 1
-                    path = tuple(idx_of[l] for l in reversed(sol.history))
-                    ptxt = "->".join("B%d" % i for i in path)
-                    # the history must be a path of the graph ending in the target block
-                    if path[-1] != bi or any(path[k + 1] not in shape[path[k]] for k in range(len(path) - 1)):
-                        add("%s:history-not-a-path:%s" % (mode, kind), "%s: history %s is not a path of the graph ending in the target block" % (tdesc, ptxt), case)
+                for policy in policies:
+                    if only is not None and (bi, line_nb, ename, policy) != tuple(only):
                         continue
-                    if path[0] != 0:
-                        info["solutions_history_not_from_head"] += 1
-                    nodes = sol.relevant_nodes
-                    slice_lines = node_lines(g, path, line_nb, nodes)
-                    if not slice_lines:
-                        info["empty_slices"] += 1
-                    # ---- (A) emul
-                    rec = roots = tr = None
-                    try:
-                        if implicit:
-                            vals, rec, roots, tr = emul_recorded(sol, g.lifter, dict(A.inits))
-                        else:
-                            vals = sol.emul(g.lifter, ctx=dict(A.inits))
-                        got_expr = vals[element]
-                    except HarnessError:
-                        raise
-                    except Exception as e:
-                        info["emul_raised"] += 1
-                        add("%s:emul:raise:%s:%s" % (mode, type(e).__name__, kind), "%s: solution with history %s: emul raised %r" % (tdesc, ptxt, e), case)
-                        continue
-                    fulls = full_states(path, line_nb)
-                    bad = False
-                    for k, (regs, mem, stxt) in enumerate(sts):
-                        info["state_evals"] += 1
-                        fr, fm = fulls[k]
-                        want = read_element(it, element, fr, fm)
-                        try:
-                            got = read_element(it, got_expr, regs, mem)
-                        except (KeyError, refsem.Unsupported) as e:
-                            add("%s:emul-value-not-evaluable:%s" % (mode, kind), "%s: history %s: emul returned %s = %s which cannot be evaluated on the inputs (%r)" % (
-                                tdesc, ptxt, ename, got_expr, e), case)
-                            bad = True
-                            break
-                        if got != want:
-                            add("%s:emul-value-differs:%s" % (mode, kind),
-                                "%s: history %s: the full blocks give %s = %#x, emul of the slice gives %s = %#x from state %s; slice: %s" % (
-                                    tdesc, ptxt, ename, want, got_expr, got, stxt, _lines_text(slice_lines)), case)
-                            bad = True
-                            break
-                        # ---- (B) the relevant assignments only, by the reference semantics
-                        r2, m2 = dict(regs), dict(mem)
-                        exec_lines(it, slice_lines, r2, m2)
-                        got2 = read_element(it, element, r2, m2)
-                        if got2 != want:
-                            add("%s:relevant-nodes-value-differs:%s" % (mode, kind),
-                                "%s: history %s: the full blocks give %s = %#x, executing only the relevant assignments gives %#x from state %s; slice: %s" % (
-                                    tdesc, ptxt, ename, want, got2, stxt, _lines_text(slice_lines)), case)
-                            bad = True
-                            break
-                    if not implicit:
-                        if slice_lines and path not in hist_seen:
-                            info["nontrivial"] += 1
-                        hist_seen.add(path)
-                        continue
-                    # ---- path constraints
-                    fol = follows(path)
-                    nf = sum(1 for x in fol if x)
-                    info["states_following"] += nf
-                    info["states_not_following"] += len(fol) - nf
-                    if nf == len(fol):
-                        info["solutions_all_follow"] += 1
-                    elif nf == 0:
-                        info["solutions_none_follow"] += 1
-                    else:
-                        info["solutions_some_follow"] += 1
-                        if path not in hist_seen:
-                            info["nontrivial"] += 1
-                    hist_seen.add(path)
-                    ctxt = " AND ".join(tree_text(rec, t) for t in roots) or "(none)"
-                    # identical (history, constraint tree) pairs are judged once per graph
-                    ckey = (path, ctxt)
-                    if ckey in cons_seen:
-                        info["constraint_sets_repeated"] += 1
-                        continue
-                    cons_seen.add(ckey)
-                    info["constraint_sets_judged"] += 1
-                    for k, (regs, mem, stxt) in enumerate(sts):
-                        def memf(ps, a, mem=mem):
-                            b = mem.get(a)
-                            return it.default_mem(a) if b is None else b
-                        try:
-                            holds = all(eval_tree(it, rec, t, regs, memf) for t in roots)
-                        except (KeyError, refsem.Unsupported) as e:
-                            add("implicit:constraint-not-evaluable:%s" % kind, "%s: history %s: constraints %s cannot be evaluated on the inputs (%r)" % (tdesc, ptxt, ctxt, e), case)
-                            break
-                        if holds and not fol[k]:
-                            add("implicit:constraints-hold-but-execution-leaves-history:%s" % kind,
-                                "%s: history %s: state %s satisfies the path constraints %s but concrete execution from B%d does not follow the history" % (
-                                    tdesc, ptxt, stxt, ctxt, path[0]), case)
-                            break
-                        if fol[k] and not holds:
-                            add("implicit:execution-follows-history-but-constraints-fail:%s" % kind,
-                                "%s: history %s: concrete execution from state %s follows the history but the path constraints %s do not hold" % (
-                                    tdesc, ptxt, stxt, ctxt), case)
-                            break
-                    # ---- the solver's verdict and model, replayed concretely
-                    try:
-                        model = sol.constraints
-                    except ValueError:
-                        model = None
-                    except Exception as e:
-                        add("implicit:solver:raise:%s:%s" % (type(e).__name__, kind), "%s: history %s: is_satisfiable/constraints raised %r" % (tdesc, ptxt, e), case)
-                        continue
-                    if model is None:
-                        info["unsat_solutions"] += 1
-                        if nf:
-                            k = fol.index(True)
-                            add("implicit:unsat-but-a-state-follows-history:%s" % kind,
-                                "%s: history %s: is_satisfiable is False (constraints %s) but concrete execution from state %s follows the history" % (
-                                    tdesc, ptxt, ctxt, sts[k][2]), case)
-                        continue
-                    info["sat_solutions"] += 1
-                    try:
-                        regs, mem, mtxt = model_state(A, model, tr)
-                    except Exception as e:
-                        add("implicit:model:raise:%s:%s" % (type(e).__name__, kind), "%s: history %s: reading the model raised %r" % (tdesc, ptxt, e), case)
-                        continue
-                    info["models_replayed"] += 1
-                    want = [g.locs[i] for i in path]
-                    r = it.run(g.ircfg, want[0], regs, mem, fuel=n + 2, irdst=A.IRDst)
-                    if r.path[:len(want)] != want:
-                        add("implicit:model-does-not-follow-history:%s" % kind,
-                            "%s: history %s: the solver's model %s (constraints %s) drives concrete execution through %s" % (
-                                tdesc, ptxt, mtxt, ctxt, "->".join("B%d" % idx_of[l] for l in r.path)), case)
+                    judge(bi, line_nb, ename, policy)
     return vs, info
 
 
@@ -585,9 +644,8 @@ def _lines_text(lines):
 
 # ------------------------------------------------------------------ sharding
 
-def _shard(args):
+def _unit(args):
     mode, n, maxlen, alphabet, conds, si, b0 = args
-    _z3_path()
     shape = irgen.shapes(n)[si]
     bl = irgen.bodies(alphabet, maxlen)
     ncond = [len(conds) if len(s) == 2 else 1 for s in shape]
@@ -596,7 +654,7 @@ def _shard(args):
     vs = []
     sigs = {}
     sample = None
-    # the body of the head block is fixed by the shard: the other blocks range over every body
+    # the body of the head block is fixed by the unit: the other blocks range over every body
     for rest in itertools.product(bl, repeat=n - 1):
         body_idx = (bl[b0],) + rest
         for cond_idx in itertools.product(*[range(k) for k in ncond]):
@@ -614,6 +672,54 @@ def _shard(args):
             if sample is None and info["nontrivial"] and sum(len(b) for b in body_idx) >= 2:
                 sample = "%s: %s" % (mode, irgen.describe(shape, body_idx, cond_idx, alphabet, conds))
     return cnt, tot, vs, sample, sigs, mode
+
+
+def _shard(units):
+    """A shard is a list of units (plan entry, shape, body of the head block); few large shards keep the pool's
+    dispatch cost negligible on a loaded machine."""
+    _z3_path()
+    out = {"explicit": [0, {}, [], None, {}], "implicit": [0, {}, [], None, {}]}
+    for u in units:
+        cnt, tot, vs, sample, sigs, mode = _unit(u)
+        o = out[mode]
+        o[0] += cnt
+        for k, x in tot.items():
+            o[1][k] = max(o[1].get(k, 0), x) if k.startswith("max_") else o[1].get(k, 0) + x
+        for k, x in sigs.items():
+            if k not in o[4]:
+                o[2].extend(v for v in vs if v["sig"] == k)
+            o[4][k] = o[4].get(k, 0) + x
+        if o[3] is None:
+            o[3] = sample
+    return [(o[0], o[1], o[2], o[3], o[4], mode) for mode, o in sorted(out.items())]
+
+
+NSHARDS = 32
+
+
+def make_shards(plan):
+    """Deterministic balanced packing (largest unit first into the lightest shard)."""
+    units = []
+    for mode, n, maxlen, alphabet, conds in plan:
+        nb = len(irgen.bodies(alphabet, maxlen))
+        for si, shape in enumerate(irgen.shapes(n)):
+            if not irgen.shape_is_loop_free(shape):
+                continue
+            ng = nb ** (n - 1)
+            for s in shape:
+                if len(s) == 2:
+                    ng *= len(conds)
+            paths = 1 + sum(1 for s in shape if len(s) == 2)
+            w = ng * n * paths * (3 if mode == "implicit" else 1)
+            for b0 in range(nb):
+                units.append((w * (1 + min(2, len(irgen.bodies(alphabet, maxlen)[b0]))), len(units), (mode, n, maxlen, alphabet, conds, si, b0)))
+    units.sort(key=lambda u: (-u[0], u[1]))
+    bins = [[0, i, []] for i in range(NSHARDS)]
+    for w, _, u in units:
+        b = min(bins, key=lambda x: (x[0], x[1]))
+        b[0] += w
+        b[2].append(u)
+    return [b[2] for b in bins if b[2]], len(units)
 
 
 DEPS = "/verif/.deps"
@@ -640,15 +746,11 @@ def _preimport(implicit):
 def run(ctx):
     plan = PLAN_Q if ctx.quick else PLAN_T
     _preimport(True)
-    shards = []
-    for mode, n, maxlen, alphabet, conds in plan:
-        nb = len(irgen.bodies(alphabet, maxlen))
-        for si, shape in enumerate(irgen.shapes(n)):
-            if not irgen.shape_is_loop_free(shape):
-                continue
-            for b0 in range(nb):
-                shards.append((mode, n, maxlen, alphabet, conds, si, b0))
-    res = ctx.pmap(_shard, shards)
+    for n in set(p[1] for p in plan):
+        irgen.shapes(n)
+    shards, nunits = make_shards(plan)
+    parts, schedule = adaptive.amap(ctx, _shard, shards)
+    res = [r for part in parts for r in part]
     sigcount = {}
     tot = {"explicit": {}, "implicit": {}}
     graphs = {"explicit": 0, "implicit": 0}
@@ -670,7 +772,8 @@ def run(ctx):
         "distinct_nontrivial": ex.get("nontrivial", 0) + im.get("nontrivial", 0),
         "graphs_explicit": graphs["explicit"],
         "graphs_implicit": graphs["implicit"],
-        "targets": ex.get("targets", 0) + im.get("targets", 0),
+        "targets_x_orders": ex.get("targets", 0) + im.get("targets", 0),
+        "graphs_with_a_join_run_in_both_pending_orders": ex.get("graphs_with_join", 0) + im.get("graphs_with_join", 0),
         "explicit_solutions": ex.get("solutions", 0),
         "explicit_solutions_with_nonempty_slice": ex.get("solutions", 0) - ex.get("empty_slices", 0),
         "explicit_max_solutions_per_target": ex.get("max_solutions_per_target", 0),
@@ -690,8 +793,11 @@ def run(ctx):
         "violating_targets_by_signature": sigcount,
         "samples": samples,
         "exhaustive": True,
+        "schedule": schedule,
+        "work_units": nunits,
         "bounds": {"plan(mode,blocks,max_assignments,alphabet,conditions)": [list(p) for p in plan],
                    "shapes": "acyclic only", "elements": ELEMENTS, "heads": "{block 0}",
+                   "pending_state_orders": "smallest-history-first; also largest-history-first on graphs with a join",
                    "state_lattice": "a,b in {0,1,2,0xFFFFFFFF} (when read), zf in {0,1} (when read), sp = 0x1000, cells at sp+4 and sp+8 in {address pattern, 0}; every *_init identifier = its register"},
     }
 
@@ -699,4 +805,4 @@ def run(ctx):
 def replay(case):
     _preimport(True)
     return check_graph(case["mode"], case["n"], case["shape"], tuple(tuple(b) for b in case["bodies"]), tuple(case["conds"]),
-                       list(case["alphabet"]), list(case["condnames"]), only=case["target"])[0]
+                       list(case["alphabet"]), list(case["condnames"]), only=list(case["target"]) + [case.get("order", "min")])[0]
